@@ -110,7 +110,7 @@ def i_AAD(i, fmap):
     fmap[al] = _r
     fmap[ah] = cst(0, 8)
     fmap[zf] = _r == 0
-    fmap[sf] = _r < 0
+    fmap[sf] = _r.bit(_r.size - 1)
 
 
 def i_AAM(i, fmap):
@@ -121,7 +121,7 @@ def i_AAM(i, fmap):
     _r = _al & (imm8 - 1)
     fmap[al] = _r
     fmap[zf] = _r == 0
-    fmap[sf] = _r < 0
+    fmap[sf] = _r.bit(_r.size - 1)
 
 
 def i_XLATB(i, fmap):
@@ -333,7 +333,7 @@ def _cmps_(i, fmap, l):
         fmap[af] = tst(cnt == 0, fmap(af), halfborrow(dst, src))
         fmap[pf] = tst(cnt == 0, fmap(pf), parity8(x[0:8]))
         fmap[zf] = tst(cnt == 0, fmap(zf), x == 0)
-        fmap[sf] = tst(cnt == 0, fmap(sf), x < 0)
+        fmap[sf] = tst(cnt == 0, fmap(sf), x.bit(x.size - 1))
         fmap[cf] = tst(cnt == 0, fmap(cf), carry)
         fmap[of] = tst(cnt == 0, fmap(of), overflow)
         fmap[eip] = tst(cnt == 0, fmap[eip] + i.length, fmap[eip])
@@ -342,7 +342,7 @@ def _cmps_(i, fmap, l):
         fmap[af] = halfborrow(dst, src)
         fmap[pf] = parity8(x[0:8])
         fmap[zf] = x == 0
-        fmap[sf] = x < 0
+        fmap[sf] = x.bit(x.size - 1)
         fmap[cf] = carry
         fmap[of] = overflow
         fmap[eip] = fmap[eip] + i.length
@@ -376,7 +376,7 @@ def _scas_(i, fmap, l):
         fmap[af] = tst(cnt == 0, fmap(af), halfborrow(a, src))
         fmap[pf] = tst(cnt == 0, fmap(pf), parity8(x[0:8]))
         fmap[zf] = tst(cnt == 0, fmap(zf), x == 0)
-        fmap[sf] = tst(cnt == 0, fmap(sf), x < 0)
+        fmap[sf] = tst(cnt == 0, fmap(sf), x.bit(x.size - 1))
         fmap[cf] = tst(cnt == 0, fmap(cf), carry)
         fmap[of] = tst(cnt == 0, fmap(of), overflow)
         fmap[eip] = tst(cnt == 0, fmap[eip] + i.length, fmap[eip])
@@ -385,7 +385,7 @@ def _scas_(i, fmap, l):
         fmap[af] = halfborrow(a, src)
         fmap[pf] = parity8(x[0:8])
         fmap[zf] = x == 0
-        fmap[sf] = x < 0
+        fmap[sf] = x.bit(x.size - 1)
         fmap[cf] = carry
         fmap[of] = overflow
         fmap[eip] = fmap[eip] + i.length
@@ -652,7 +652,7 @@ def i_INC(i, fmap):
     fmap[af] = halfcarry(a, b)
     fmap[pf] = parity8(x[0:8])
     fmap[zf] = x == 0
-    fmap[sf] = x < 0
+    fmap[sf] = x.bit(x.size - 1)
     fmap[of] = overflow
     fmap[op1] = x
 
@@ -667,7 +667,7 @@ def i_DEC(i, fmap):
     fmap[af] = halfborrow(a, b)
     fmap[pf] = parity8(x[0:8])
     fmap[zf] = x == 0
-    fmap[sf] = x < 0
+    fmap[sf] = x.bit(x.size - 1)
     fmap[of] = overflow
     fmap[op1] = x
 
@@ -682,7 +682,7 @@ def i_NEG(i, fmap):
     fmap[pf] = parity8(x[0:8])
     fmap[cf] = b != 0
     fmap[zf] = x == 0
-    fmap[sf] = x < 0
+    fmap[sf] = x.bit(x.size - 1)
     fmap[of] = overflow
     fmap[op1] = x
 
@@ -744,7 +744,7 @@ def i_ADC(i, fmap):
     fmap[pf] = parity8(x[0:8])
     fmap[af] = halfcarry(a, op2, c)
     fmap[zf] = x == 0
-    fmap[sf] = x < 0
+    fmap[sf] = x.bit(x.size - 1)
     fmap[cf] = carry
     fmap[of] = overflow
     fmap[op1] = x
@@ -759,7 +759,7 @@ def i_ADD(i, fmap):
     fmap[pf] = parity8(x[0:8])
     fmap[af] = halfcarry(a, op2)
     fmap[zf] = x == 0
-    fmap[sf] = x < 0
+    fmap[sf] = x.bit(x.size - 1)
     fmap[cf] = carry
     fmap[of] = overflow
     fmap[op1] = x
@@ -775,7 +775,7 @@ def i_SBB(i, fmap):
     fmap[pf] = parity8(x[0:8])
     fmap[af] = halfborrow(a, op2, c)
     fmap[zf] = x == 0
-    fmap[sf] = x < 0
+    fmap[sf] = x.bit(x.size - 1)
     fmap[cf] = carry
     fmap[of] = overflow
     fmap[op1] = x
@@ -790,7 +790,7 @@ def i_SUB(i, fmap):
     fmap[pf] = parity8(x[0:8])
     fmap[af] = halfborrow(a, op2)
     fmap[zf] = x == 0
-    fmap[sf] = x < 0
+    fmap[sf] = x.bit(x.size - 1)
     fmap[cf] = carry
     fmap[of] = overflow
     fmap[op1] = x
@@ -804,7 +804,7 @@ def i_AND(i, fmap):
         op2 = op2.signextend(op1.size)
     x = fmap(op1) & op2
     fmap[zf] = x == 0
-    fmap[sf] = x < 0
+    fmap[sf] = x.bit(x.size - 1)
     fmap[cf] = bit0
     fmap[of] = bit0
     fmap[pf] = parity8(x[0:8])
@@ -817,7 +817,7 @@ def i_OR(i, fmap):
     fmap[eip] = fmap[eip] + i.length
     x = fmap(op1) | op2
     fmap[zf] = x == 0
-    fmap[sf] = x < 0
+    fmap[sf] = x.bit(x.size - 1)
     fmap[cf] = bit0
     fmap[of] = bit0
     fmap[pf] = parity8(x[0:8])
@@ -830,7 +830,7 @@ def i_XOR(i, fmap):
     op2 = fmap(i.operands[1])
     x = fmap(op1) ^ op2
     fmap[zf] = x == 0
-    fmap[sf] = x < 0
+    fmap[sf] = x.bit(x.size - 1)
     fmap[cf] = bit0
     fmap[of] = bit0
     fmap[pf] = parity8(x[0:8])
@@ -844,7 +844,7 @@ def i_CMP(i, fmap):
     x, carry, overflow = SubWithBorrow(op1, op2)
     fmap[af] = halfborrow(op1, op2)
     fmap[zf] = x == 0
-    fmap[sf] = x < 0
+    fmap[sf] = x.bit(x.size - 1)
     fmap[cf] = carry
     fmap[of] = overflow
     fmap[pf] = parity8(x[0:8])
@@ -928,7 +928,7 @@ def i_SHR(i, fmap):
         fmap[of] = top(1)
     res = a >> count
     fmap[op1] = res
-    fmap[sf] = res < 0
+    fmap[sf] = res.bit(res.size - 1)
     fmap[zf] = res == 0
     fmap[pf] = parity8(res[0:8])
 
@@ -954,7 +954,7 @@ def i_SAR(i, fmap):
         fmap[of] = top(1)
     res = a // count  # (// is used as arithmetic shift in cas.py)
     fmap[op1] = res
-    fmap[sf] = res < 0
+    fmap[sf] = res.bit(res.size - 1)
     fmap[zf] = res == 0
     fmap[pf] = parity8(res[0:8])
 
@@ -980,7 +980,7 @@ def i_SHL(i, fmap):
         fmap[cf] = top(1)
         fmap[of] = top(1)
     fmap[op1] = x
-    fmap[sf] = x < 0
+    fmap[sf] = x.bit(x.size - 1)
     fmap[zf] = x == 0
     fmap[pf] = parity8(x[0:8])
 
@@ -1096,7 +1096,7 @@ def i_SHRD(i, fmap):
         r = op1.size - n
         x = (fmap(op1) >> n) | (op2 << r)
     fmap[op1] = x
-    fmap[sf] = x < 0
+    fmap[sf] = x.bit(x.size - 1)
     fmap[zf] = x == 0
     fmap[pf] = parity8(x[0:8])
 
@@ -1113,7 +1113,7 @@ def i_SHLD(i, fmap):
         r = op1.size - n
         x = (fmap(op1) << n) | (op2 >> r)
     fmap[op1] = x
-    fmap[sf] = x < 0
+    fmap[sf] = x.bit(x.size - 1)
     fmap[zf] = x == 0
     fmap[pf] = parity8(x[0:8])
 
